@@ -29,6 +29,15 @@ CHECKS = {
             "bounded: <= 3 units over 10 leaf kinds (incl. an 8-bit group, non-ASCII text, empty text), 6 families of shapes, "
             "request orders <= 3; nothing asserted for unaligned trees; int() pinned only for bit strings and digit text",
             "TLA+ model (TLC exhaustive) + TLC-generated case table replayed into real trees + TLC judging recorded trees"),
+    "C10": ("model_checking",
+            "TreeHeap.tla: an object heap of tree nodes (children, parent links, cached size and hash) with one action per "
+            "public operation written the way the code performs it; TLC checks Inv_Size, Inv_Hash, Inv_Parent and PureOps on "
+            "every history within the bound; all TLC-enumerated histories and deeper simulated behaviours are replayed on real "
+            "DerivationTree objects comparing the projected object graph after each step, plus hash/== against recomputation; "
+            "heaps recorded at every operator call of real search runs are validated by the trace specification Trace_Heap",
+            "bounded: <= 5 nodes / 4 operations exhaustive in TLC (6/5 thorough), histories of 3 operations from 4 seed forests "
+            "replayed exhaustively, simulated depth 7; slice nodes are views and exempt from the parent-link clause",
+            "TLA+ model (TLC exhaustive + simulation) + behaviours replayed into real trees + TLC trace validation of recorded heaps"),
 }
 
 NOT_YET = "check not built yet in this round (work in progress, see DESIGN.md section 8); not claimed"
